@@ -8,7 +8,7 @@ from .. import encode as E
 UNITS = [B.Unit("abacus", [("a", "fx")], "i64", "return detail::sqrt_abacus(a).v;"),
          B.Unit("stdm", [("a", "fx")], "i64", "return detail::sqrt_std_math(a).v;"),
          B.Unit("sqrt", [("a", "fx")], "i64", "return sqrt(a).v;")]
-XLIM = 1 << 47
+XLIM = 1 << 48     # the code's own guard; the property states [0, 2^47), callers (hypot) use up to 2^48
 s64 = z3.BitVecSort(64)
 SQ = z3.Function("SQ", s64, s64)      # squaring as an uninterpreted function; only binomial instances are used
 
@@ -25,7 +25,9 @@ def run(R):
     hab = R.harness("abacus17", [UNITS[2], UNITS[0]], defines=["FIXEDMATH_ENABLE_SQRT_ABACUS_ALGO"])
     h20 = R.harness("cxx20", UNITS, std="c++20")
     x = BV("a")
-    R.bounds.append("abacus: every raw x in [0, 2^47) by a loop invariant cut at the loop head (Init for all x, one Step per "
+    R.bounds.append("both algorithms are verified on [0, 2^48) = up to the guard in the code (the property states [0, 2^47); "
+                    "hypot passes arguments up to 2^48, so the contract used by C12/C14 is the wider one). "
+                    "abacus: every raw x in [0, 2^48) by a loop invariant cut at the loop head (Init for all x, one Step per "
                     "power of four 4^0..4^31, Exit), cross-checked by plain unrolling for x < 2^12; std::sqrt algorithm: every "
                     "raw x in [0, 2^47) in the real-arithmetic abstraction with the IEEE contract for sqrt; every negative x")
     # ------------------------------------------------------------------ which algorithm does the public sqrt select
